@@ -65,11 +65,12 @@ def linear_cases(draw):
     d = len(m['A'])
     batched = draw(st.booleans())
     n = draw(st.integers(1, 5)) if batched else 1
-    ent = gens.nice(-2.0, 2.0, 3)
+    ytype = draw(st.sampled_from(['float', 'float', 'floatlist', 'int', 'intlist']))
+    ent = gens.nice(-2.0, 2.0, 3) if ytype.startswith('float') else st.integers(-3, 3)
     y = [[draw(ent) for _ in range(d)] for _ in range(n)]
     if not batched:
         y = y[0]
-    return {'m': m, 'y': y, 'h': draw(gens.nice(1e-3, 0.5, 4)), 'method': draw(st.sampled_from(['euler', 'rk'])),
+    return {'m': m, 'y': y, 'ytype': ytype, 'h': draw(gens.nice(1e-3, 0.5, 4)), 'method': draw(st.sampled_from(['euler', 'rk'])),
             'kw': draw(st.sampled_from([None, 'scale', 'offset']))}
 
 
@@ -98,14 +99,24 @@ def _buggy_rk(A, h, y):
 
 
 def _step(case, A, y, h):
+    """one step from the start vector given in the type the case asks for (float/int ndarray; lists are passed through
+    np.asarray by the rate law only - the integrators document 'array-like' but add to it, so lists go in as arrays of
+    their natural dtype); the same object is stepped twice: the caller's vector must still give the same step"""
     from atomman.mep import integrator
     fxn = integrator.euler if case['method'] == 'euler' else integrator.rungekutta
     rate, kwargs = _rate(A, case['kw'])
-    return np.asarray(fxn(rate, y, h, **kwargs), dtype=float)
+    yt = case.get('ytype', 'float')
+    arg = np.array(y, dtype=int) if yt.startswith('int') else np.array(y, dtype=float)
+    got = np.array(fxn(rate, arg, h, **kwargs), dtype=float)
+    again = np.array(fxn(rate, arg, h, **kwargs), dtype=float)
+    require(got.shape == again.shape and np.array_equal(got, again),
+            lambda: '%s: stepping the same start vector object twice gives different results (%r then %r): the integrator '
+                    'changed its argument' % (case['method'], got.tolist(), again.tolist()))
+    return got
 
 
 def _lin_labels(case, A):
-    labs = {case['method'], 'd%d' % A.shape[0], case['m']['kind'], 'kw_' + str(case['kw'])}
+    labs = {case['method'], 'd%d' % A.shape[0], case['m']['kind'], 'kw_' + str(case['kw']), 'y' + case.get('ytype', 'float')}
     normal = np.abs(A @ A.T - A.T @ A).max() <= 1e-12 * max(1.0, np.abs(A).max() ** 2)
     if not normal:
         labs.add('nonnormal')
@@ -299,7 +310,8 @@ def relax_cases(draw):
     e1 = [draw(gens.nice(-0.2, 0.2, 3)), draw(gens.nice(-0.2, 0.2, 3))]
     return {'a': a, 'h0': h0, 'k': k, 'c': c, 'rot': rot, 't': t, 'n': n, 'bend': bend, 'e0': e0, 'e1': e1,
             'dtfac': draw(st.sampled_from([0.1, 0.15, 0.25])), 'integ': draw(st.sampled_from(['rk', 'rk', 'rungekutta', 'euler'])),
-            'opts': draw(st.sampled_from(['default', 'default', 'explicit_none', 'shift', 'empty', 'callable']))}
+            'opts': draw(st.sampled_from(['default', 'default', 'explicit_none', 'shift', 'empty', 'callable'])),
+            'onecall': draw(st.booleans())}
 
 
 def _surface(case):
@@ -399,7 +411,12 @@ def oracle_relax(case):
     if srt[-1] - srt[-2] <= 1e-14 * h0:
         labs.add('tie_exempt')
         return labs
-    climbed = relaxed.relax(relaxsteps=0, climbsteps=nsteps, timestep=dt, tolerance=tolr, verbose=False)
+    if case.get('onecall'):
+        # relaxation and climbing requested in one relax() call (the relaxation phase converges before its step limit)
+        climbed = path.relax(relaxsteps=nsteps, climbsteps=nsteps, timestep=dt, tolerance=tolr, verbose=False)
+        labs.add('onecall')
+    else:
+        climbed = relaxed.relax(relaxsteps=0, climbsteps=nsteps, timestep=dt, tolerance=tolr, verbose=False)
     cc = np.asarray(climbed.coord, dtype=float)
     ec = E(cc)
     top = int(np.argmax(ec))
@@ -421,7 +438,7 @@ def oracle_relax(case):
 
 
 CLAUSES = [
-    Clause('taylor', oracle_taylor, linear_cases, quick=16000, thorough=400000, min_share={'nt': 0.2, 'batched': 0.2, 'rk': 0.2},
+    Clause('taylor', oracle_taylor, linear_cases, quick=16000, thorough=400000, min_share={'nt': 0.2, 'batched': 0.2, 'rk': 0.2, 'yint': 0.08},
            desc='euler / rungekutta step on y\'=Ay equals the degree-1 / degree-4 Taylor polynomial of exp(hA) y; shapes and keyword pass-through'),
     Clause('order', oracle_order, linear_cases, quick=8000, thorough=200000, min_share={'nt': 0.2, 'ratio_checked': 0.05},
            desc='one-step error against expm(hA) y is the first omitted Taylor term (rigorous bracket) and falls by 2^(p+1) on halving h'),
